@@ -76,7 +76,8 @@ func (f *Load) Call(s *slip.Scope, args slip.List, depth int) slip.Object {
 		path       string
 		err        error
 	)
-	for pos := 1; pos < len(args)-1; pos += 2 {
+	pos := 1
+	for ; pos < len(args)-1; pos += 2 {
 		sym, ok := args[pos].(slip.Symbol)
 		if !ok {
 			slip.TypePanic(s, depth, "keyword", args[pos], "keyword")
@@ -94,6 +95,9 @@ func (f *Load) Call(s *slip.Scope, args slip.List, depth int) slip.Object {
 		default:
 			slip.TypePanic(s, depth, "keyword", sym, ":verbose", ":print", ":if-does-not-exist", "external-format")
 		}
+	}
+	if pos < len(args) {
+		slip.ErrorPanic(s, depth, "extra arguments that are not keyword and value pairs")
 	}
 	defer func() {
 		s.Set(slip.Symbol("*load-pathname*"), nil)
